@@ -89,7 +89,20 @@ func (j *JApi) ToOpenAPIJson() ([]byte, error) {
 	if err != nil {
 		return nil, err
 	}
-	return json.Marshal(o)
+	return marshalOpenAPI(func() ([]byte, error) { return json.Marshal(o) })
+}
+
+// marshalOpenAPI writes the OpenAPI document. Some schema objects are converted
+// only now, inside their MarshalJSON, and the converters panic on the schemas
+// which they cannot represent (NewOpenAPI recovers from those that are met
+// while the document is put together).
+func marshalOpenAPI(marshal func() ([]byte, error)) (b []byte, err error) {
+	defer func() {
+		if r := recover(); r != nil {
+			b, err = nil, fmt.Errorf("cannot convert the catalog to OpenAPI: %v", r)
+		}
+	}()
+	return marshal()
 }
 
 func (j *JApi) ToOpenAPIJsonIndent() ([]byte, error) {
@@ -100,5 +113,5 @@ func (j *JApi) ToOpenAPIJsonIndent() ([]byte, error) {
 	if err != nil {
 		return nil, err
 	}
-	return json.MarshalIndent(o, "", "  ")
+	return marshalOpenAPI(func() ([]byte, error) { return json.MarshalIndent(o, "", "  ") })
 }
